@@ -115,27 +115,35 @@ fn explore(programs: &[Vec<Op>], bound: Option<usize>) -> Outcome {
 }
 
 /// (iii) one Finder / FinderRev / cloned iterator shared by reference or moved
-/// across threads. There is no synchronisation inside a search, so loom only
-/// has thread start/finish orders to explore here (stated in the evidence).
-fn explore_shared(threads: usize) -> Outcome {
+/// across threads; the searcher is built inside the model, so the threads'
+/// searches are the FIRST searches on it. In the plain build there is no
+/// synchronisation inside a search, so loom only has thread start/finish
+/// orders to vary; in the loom-rewritten copy of the crate (every atomic /
+/// std::sync primitive resolves to loom) any synchronisation a change adds
+/// to a searcher is explored too.
+fn explore_shared(threads: usize, long_needle: bool, bound: Option<usize>) -> Outcome {
     use memchr::memmem;
     let executions = Arc::new(AtomicU64::new(0));
     let mismatches: Arc<Mutex<Vec<String>>> = Arc::new(Mutex::new(vec![]));
     let (e2, m2) = (executions.clone(), mismatches.clone());
     let mut b = loom::model::Builder::new();
-    b.preemption_bound = None;
+    b.preemption_bound = bound;
+    b.max_branches = 100_000;
     b.check(move || {
-        let needle: &'static [u8] = b"zqe e e e e e e e e e e e e e e e e e e e";
+        let needle: &'static [u8] = if long_needle { b"zqe e e e e e e e e e e e e e e e e e e e" } else { b"zq" };
         let finder = Arc::new(memmem::Finder::new(needle));
         let finder_rev = Arc::new(memmem::FinderRev::new(needle));
-        let hay: &'static [u8] = Box::leak(
-            [b"e e e z".as_slice(), needle, b" q e e ", needle, b"...."].concat().into_boxed_slice(),
+        // per-thread haystacks: short ones (Rabin-Karp routes: < 16 bytes /
+        // below the vector minimum) and a long one
+        let shorts: [&'static [u8]; 3] = [b"dkrzqpwgnuel", b"..zq", b"zq.zq.........."];
+        let long: &'static [u8] = Box::leak(
+            [b"e e e z".as_slice(), needle, b" q e e ", needle, b"....".as_slice()].concat().into_boxed_slice(),
         );
-        let base_iter = memchr::memchr_iter(b'e', hay);
-        let sub_iter = finder.find_iter(hay).into_owned();
-        let exp_f = hay.windows(needle.len()).position(|w| w == needle);
-        let exp_r = hay.windows(needle.len()).rposition(|w| w == needle);
-        let exp_cnt = hay.iter().filter(|&&b| b == b'e').count();
+        let base_iter = memchr::memchr_iter(b'e', long);
+        let sub_iter = finder.find_iter(long).into_owned();
+        let exp_cnt = long.iter().filter(|&&b| b == b'e').count();
+        let naive = move |h: &[u8]| h.windows(needle.len()).position(|w| w == needle);
+        let rnaive = move |h: &[u8]| h.windows(needle.len()).rposition(|w| w == needle);
         let mut hs = vec![];
         for t in 0..threads {
             let (f, fr, m3) = (finder.clone(), finder_rev.clone(), m2.clone());
@@ -143,18 +151,25 @@ fn explore_shared(threads: usize) -> Outcome {
             let si = sub_iter.clone();
             hs.push(loom::thread::spawn(move || {
                 let mut bad = vec![];
-                if f.find(hay) != exp_f {
-                    bad.push(format!("thread {} shared Finder::find returned {:?}", t, f.find(hay)));
+                let h: &[u8] = if long_needle { long } else { shorts[t % 3] };
+                let got = f.find(h);
+                if got != naive(h) {
+                    bad.push(format!("thread {}: first find on a shared Finder returned {:?}, expected {:?}", t, got, naive(h)));
                 }
-                if fr.rfind(hay) != exp_r {
-                    bad.push(format!("thread {} shared FinderRev::rfind returned {:?}", t, fr.rfind(hay)));
+                let got = f.find(long);
+                if got != naive(long) {
+                    bad.push(format!("thread {}: find(long) on a shared Finder returned {:?}, expected {:?}", t, got, naive(long)));
+                }
+                let got = fr.rfind(h);
+                if got != rnaive(h) {
+                    bad.push(format!("thread {}: rfind on a shared FinderRev returned {:?}, expected {:?}", t, got, rnaive(h)));
                 }
                 if it.count() != exp_cnt {
-                    bad.push(format!("thread {} moved Memchr clone miscounted", t));
+                    bad.push(format!("thread {}: moved Memchr clone miscounted", t));
                 }
                 let got: Vec<usize> = si.collect();
-                if got.len() != 2 || Some(got[0]) != exp_f || Some(got[1]) != exp_r {
-                    bad.push(format!("thread {} moved FindIter yielded {:?}", t, got));
+                if got.first().copied() != naive(long) || got.len() != 2 {
+                    bad.push(format!("thread {}: moved FindIter yielded {:?}", t, got));
                 }
                 if !bad.is_empty() {
                     m3.lock().unwrap().extend(bad);
@@ -248,11 +263,18 @@ fn main() {
         total.machinery_errors.push("vacuous: no explored execution had two threads racing through detect".into());
     }
     if only.is_none() {
-        for t in [2usize, 3] {
-            let o = explore_shared(t);
+        for (t, long_needle, bound) in [(2usize, false, None), (2, true, None), (3, false, Some(2)), (3, true, Some(2))] {
+            let o = explore_shared(t, long_needle, bound);
             total.evaluations += o.executions;
             total.states += 1;
-            total.bump_by("interleavings/shared finder+iterators (thread start/finish orders only)", o.executions);
+            total.bump_by(
+                if cfg!(memchr_verif_loomcopy) {
+                    "interleavings/shared finder+iterators (all atomics of the crate loom-visible)"
+                } else {
+                    "interleavings/shared finder+iterators (thread start/finish orders only)"
+                },
+                o.executions,
+            );
             for m in o.mismatches {
                 total.violation(Violation {
                     class: "wrong_result".into(),
@@ -265,7 +287,7 @@ fn main() {
         }
     }
     let extra = json!({
-        "engine": "loomcheck (loom 0.7.2 on the real unsafe_ifunc! cells)", "tier": if thorough { "thorough" } else { "quick" },
+        "engine": if cfg!(memchr_verif_loomcopy) { "loomcheck (loom 0.7.2; every atomic/std::sync primitive of a scratch copy of the crate rewritten to loom)" } else { "loomcheck (loom 0.7.2 on the real unsafe_ifunc! cells)" }, "tier": if thorough { "thorough" } else { "quick" },
         "bounds": {"programs": families.len(), "two_thread_programs": "unbounded preemptions", "three_thread_programs": "preemption bound 3"},
         "nontrivial_rule": "an execution is non-trivial when CPU detection ran more often than the number of distinct dispatch cells the program touches, i.e. two threads raced through the same cell's first call",
         "exhaustive": true,
